@@ -448,6 +448,8 @@ PROPS['C04']['more_proof_modules'] = list(PROPS['C04'].get('more_proof_modules',
 PROPS['C04']['required_theorems'] += ['sphere_loop', 'vincdir_sphere', 'vincdir_sphere_end_point']
 PROPS['C05']['more_proof_modules'] = list(PROPS['C05'].get('more_proof_modules', [])) + ['GeodeVerif.Proofs.C05b']
 PROPS['C05']['required_theorems'] += ['sphere_loop_exits_first_pass', 'sphere_sigma_is_central_angle', 'vincinv_sphere']
+PROPS['C05']['more_proof_modules'] = list(PROPS['C05'].get('more_proof_modules', [])) + ['GeodeVerif.Proofs.C05c']
+PROPS['C05']['required_theorems'] += ['norm_cos_sin_atan2', 'sin_sigma_eq', 'sphere_inverse_arrives', 'az12Raw_direction', 'vincinv_sphere_arrives']
 PROPS['C10']['required_theorems'] += ['west_east_in_strip', 'side_across_antimeridian', 'conv_sign_in_strip']
 PROPS['C10']['more_proof_modules'] = list(PROPS['C10'].get('more_proof_modules', [])) + ['GeodeVerif.Proofs.C10c']
 PROPS['C10']['required_theorems'] += ['pS_sphere', 'qS_sphere', 'psf_sphere', 'conv_sphere', 'geo2grid_sphere_psf_conv']
